@@ -7,6 +7,7 @@
 -/
 import LLTD.Props.C03
 import LLTD.Lemmas.TranslatedWireEq
+import LLTD.Lemmas.TranslatedHelloChain
 
 namespace LLTD.C03T
 open LLTD LLTD.TWEq
@@ -46,5 +47,41 @@ theorem hello_headers_translated (env : TW.Env) (c : Cfg) (hc : CfgOk c) (tos ge
 theorem helloFrame_prefix (c : Cfg) (g : Glob) (gen tos : Nat) (cur app : Mac) :
     helloFrame c g gen tos cur app = lltdHeader 0 bcast c.ourMac bcast c.ourMac 0 X.opHello tos ++ (helloHeader gen cur app ++ helloTlvs c g) := by
   simp [helloFrame, List.append_assoc]
+
+/-- **the whole Hello**: header writers and property writers as translated from the C text, composed as `answerHello` composes them on a
+    zeroed buffer of 46 + k bytes with room for the properties, leave behind exactly the frame `C03.hello_frame` says is transmitted,
+    followed by untouched zeros, and the final offset (the length handed to the port) is that frame's length -/
+theorem hello_frame_translated (base : TW.Env) (c : Cfg) (g : Glob) (hc : CfgOk c) (tos gen : Nat) (cur app : List Nat) (k : Nat)
+    (htos : tos < 256) (hgen : gen < 65536) (hcur : cur.length = 6) (happ : app.length = 6)
+    (hif : c.iftype < u32) (hsp : c.speed < u32) (hm : c.mode < 256) (hr : c.rate < 65536) (hlo : -128 ≤ c.rssi) (hhi : c.rssi ≤ 127)
+    (hb4 : isBytes c.ipv4) (hh : g.host.length < 18446744073709551616) (hl : c.ssid.length < 18446744073709551616)
+    (he : TChain.EnvOk base) (hk : (helloTlvs c g).length ≤ k) :
+    let env := envOf c g base
+    let b1 := TW.setLltdHeader env (List.replicate 46 0 ++ List.replicate k 0) c.ourMac bcast 0 X.opHello tos
+    let b2 := TW.setHelloHeader env b1.buffer b1.ret app cur gen
+    let b3 := TChain.helloChain env c.wifi b2.buffer (b1.ret + b2.ret)
+    b3.1 = helloFrame c g gen tos cur app ++ List.replicate (k - (helloTlvs c g).length) 0
+    ∧ b1.ret + b2.ret + b3.2 = (helloFrame c g gen tos cur app).length := by
+  intro env b1 b2 b3
+  have hh2 := hello_headers_translated env c hc tos gen cur app (List.replicate k 0) htos hgen hcur happ
+  simp only at hh2
+  have hm6 := ourMac_length c hc
+  have hlen46 : (lltdHeader 0 bcast c.ourMac bcast c.ourMac 0 X.opHello tos ++ helloHeader gen cur app).length = 46 := by
+    rw [List.length_append, lltdHeader_length _ _ _ _ _ _ _ _ rfl hm6 rfl hm6]; simp [helloHeader, hcur, happ]
+  have hchain := TChain.helloChain_writes base c g hc hif hsp hm hr hlo hhi hb4 hh hl he
+    (lltdHeader 0 bcast c.ourMac bcast c.ourMac 0 X.opHello tos ++ helloHeader gen cur app) k hk
+  rw [hlen46] at hchain
+  have hb2 : b2.buffer = (lltdHeader 0 bcast c.ourMac bcast c.ourMac 0 X.opHello tos ++ helloHeader gen cur app) ++ List.replicate k 0 := by
+    show (TW.setHelloHeader env b1.buffer b1.ret app cur gen).buffer = _
+    rw [hh2.1, List.append_assoc]
+  have hoff : b1.ret + b2.ret = 46 := hh2.2
+  have hb3 : b3 = TChain.helloChain env c.wifi
+      ((lltdHeader 0 bcast c.ourMac bcast c.ourMac 0 X.opHello tos ++ helloHeader gen cur app) ++ List.replicate k 0) 46 := by
+    show TChain.helloChain env c.wifi b2.buffer (b1.ret + b2.ret) = _
+    rw [hb2, hoff]
+  rw [hb3, hchain, hoff, helloFrame_prefix]
+  refine ⟨by simp [List.append_assoc], ?_⟩
+  simp only [List.length_append] at hlen46 ⊢
+  omega
 
 end LLTD.C03T
